@@ -1279,6 +1279,8 @@ class Exec:
         raise Unsupported('binop %s on %s' % (type(op).__name__, ty))
 
     def _num(self, v):
+        if isinstance(v, V) and isinstance(v.ty, Opt):
+            v = self.unwrap(v)
         if isinstance(v, V):
             if v.ty == BOOL:
                 return z3.If(v.t, z3.IntVal(1), z3.IntVal(0))
